@@ -1,0 +1,37 @@
+//go:build verif
+
+package gtree
+
+import "sync/atomic"
+
+// Verification hooks (build tag "verif"): the pipeline calls verifPoint at its hand-over points so
+// that a test harness can record what happened, or hold a goroutine there to force a schedule.
+// Without the tag verifPoint is an empty function (verif_off.go).
+
+// VerifHook, when non-nil, is called at every hook point: the point's name, the id of the calling
+// goroutine as handed out by verifStart (0 for the goroutines that exist once per call), and the item
+// concerned (root name, first line of a block, index of an error channel, ...).
+var VerifHook func(point string, gid uint64, item string)
+
+var verifGid atomic.Uint64
+
+// verifStart hands out an id for a worker goroutine.
+func verifStart(role string) uint64 {
+	id := verifGid.Add(1)
+	verifPoint(role+".start", id, "")
+	return id
+}
+
+func verifPoint(point string, gid uint64, item string) {
+	if h := VerifHook; h != nil {
+		h(point, gid, item)
+	}
+}
+
+// verifName is the item name of a root that may be nil.
+func verifName(n *Node) string {
+	if n == nil {
+		return ""
+	}
+	return n.name
+}
